@@ -319,7 +319,8 @@ def spec_rows(tree):
 
 
 def rand_mtime_ns(rng):
-    sec = rng.randrange((1 << 28) + 10, (1 << 31) - 1000)
+    # lower bound: a later 'touch' may move the time back by up to 10^7 s and must stay >= 2^28 s (exact 2^-24 s units)
+    sec = rng.randrange((1 << 28) + 2 * 10 ** 7, (1 << 31) - 1000)
     frac = rng.choice([0, 0, 500_000_000, 250_000_000, 499_999_999, 500_000_001, 999_999_999, 1, 123_456_789,
                        rng.randrange(10 ** 9), rng.randrange(10 ** 9)])
     return sec * 10 ** 9 + frac
